@@ -28,7 +28,7 @@ def accept(c, t, metric):
 @st.composite
 def cases(draw, tier):
     L = lib.lib()
-    c = draw(S.curves(2, 26 if tier == 'quick' else 80))
+    c = draw(S.curves(2, 26 if tier == 'quick' else 80, big_n=80 if tier == 'quick' else 200))
     p = np.array(c['pts'], dtype=float)
     n = len(p)
     metric = draw(st.sampled_from(S.METRICS))
